@@ -1,7 +1,7 @@
 (* C09 - JSON serialization is lossless or loud, and policy-gated.
    Statements only; proofs in theories/Serial_proofs.v and theories/Copy_proofs.v. *)
 From Fiddle Require Import PyBase PySlice Sig ArgStore PyCall PyText Heap Traverse Build_stmt
-  Traverse_proofs Copy Iso_proofs Copy_proofs Serial Serial_proofs Anchors.
+  Traverse_proofs Copy Iso_proofs Copy_proofs Serial Serial_proofs.
 Open Scope N_scope.
 
 (* Bytes: every byte string survives the traverser's flatten / unflatten. *)
